@@ -11,8 +11,7 @@ CLAIMS = {
         'instruction\'s byte order for both) and the fields of an enumeration operand (exactly what its dictionaries give, 0 included). '
         'MatchedOperandSet.generate_bytecode: the part list is exactly prefix codes (later operand first; operand order when reversed), '
         'opcode, suffix codes (operand order; reversed when reversed), opcode suffix, arguments (operand order; reversed exactly when the '
-        'argument order is reversed). Not under contract: the other operand types\' parse_operand; an operand-less instruction emits no '
-        'opcode suffix (as the code does); ByteCodePart.get_value is an assumed (deterministic, effect-free) contract; '
+        'argument order is reversed). Not under contract: the other operand types\' parse_operand; ByteCodePart.get_value is an assumed (deterministic, effect-free) contract; '
         'int.to_bytes is axiomatised (validated by sampling); x|y, x&y enter only through exact single-bit / mask identities.'),
  'C02': dict(tech='contract-based deductive verification (pyvc + z3): per-line placement block of the first pass, size/emission contracts of every line class',
    text='Block contract on the body of the engine\'s first pass (placement at the zone cursor / origin value / smallest aligned '
